@@ -339,6 +339,8 @@ def run(ctx):
                 viol.append(dict(desc, kind="local indices are not the dense ranks within each parent", got=loc, model=ml))
     except Exception as ex:
         viol.append({"kind": "correspondence could not be evaluated", "error": repr(ex)[:800], "no_failing_input_found": True})
+    import regress
+    evals += regress.run("C11", viol)
     for v in viol:
         v.setdefault("finding_class", None)
     return {"evaluations": evals, "distinct_nontrivial": len(distinct),
